@@ -2,6 +2,8 @@ import JP.Check
 import JP.Legacy.Check
 import JP.Codec.EncodeWire
 import JP.Codec.Decode
+import JP.Codec.Stream
+import JP.Codec.TypedWire
 
 /-!
 # Request handling of the line-protocol driver (pure part)
@@ -442,7 +444,10 @@ def handleEntry (id : String) (args : List String) : String :=
           okB (Impl.mergeMergePatches text empty),
           okB (Impl.createMergePatch text text),
           (if Impl.equal text text then '1' else '0'),
-          (match Impl.decodePatch text with | .ok _ => '1' | .err _ => '0' | .panic => 'p') ]
+          (match Impl.decodePatch text with | .ok _ => '1' | .err _ => '0' | .panic => 'p'),
+          -- the text on ONE side only: the whole of it ends up in the produced patch and is encoded again
+          okB (Impl.createMergePatch empty text),
+          okB (Impl.createMergePatch text empty) ]
       let corr := bits.toList = model
       let wf := parseCst text
       let v16 : Verdict :=
@@ -463,7 +468,9 @@ def handleEntry (id : String) (args : List String) : String :=
               (if v.isNull then none else some true),               -- MergeMerge p1
               (if v.isObj then some true else none),                -- CreateMergePatch: objects
               some true,                                            -- Equal(x,x)
-              (if Spec.wellFormedPatch v then some true else some false) ]
+              (if Spec.wellFormedPatch v then some true else some false),
+              (if v.isObj then some true else none),                -- CreateMergePatch({}, x)
+              (if v.isObj then some true else none) ]               -- CreateMergePatch(x, {})
           if (need.zip bs).all fun (n, b) => match n with | some true => b = '1' | some false => b = '0' | none => true
           then .ok else .viol ("well-formed-rejected:" ++ bits)
       reply id corr (String.ofList model) [("C16", v16), ("C04", if bits.contains 'p' then .viol "panic-or-hang" else .ok)]
@@ -639,6 +646,50 @@ def handleCodec (id : String) (args : List String) : String :=
       | none => bad id "codec-fn"
     | _, _, _ => bad id "codec-fields"
   | _ => bad id "codec-arity"
+
+/-! ### STREAM (C17): the Decoder / Encoder streams of stream.go against `JP/Codec/Stream.lean` -/
+
+def splitComma (s : String) : List String := if s = "-" then [] else s.splitOn ","
+
+/-- `STREAM id dec <input> <program> <chunking> => <trace>`: the real `Decoder` (UseNumber) driven by the
+program through a reader with the given chunking (which the model does not see);
+`STREAM id enc <esc> <prefix> <indent> <wire,wire,…> => ok:<written> <flags> | panic`: one `Encoder`,
+one `Encode` per value -/
+def handleStream (id : String) (args : List String) : String :=
+  match args with
+  | ["dec", inp, prog, chunk, "=>", r] =>
+    match hexField inp, hexField prog, hexField r with
+    | some x, some p, some got =>
+      (match Codec.Stream.trace x p with
+       | some m =>
+         let corr := m = got
+         let bad := r = "panic" || r = "hang"
+         let hasErr := got.contains 33
+         reply id corr (showHex m)
+           [("C17", if corr then .ok else .viol "decoder-stream-differs"), ("C04", if bad then .viol "panic-or-hang" else .ok)]
+           ("sdec/" ++ chunk.take 1 ++ "/" ++ (if hasErr then "err" else "clean") ++ "/" ++ toString (min p.length 12))
+       | none => bad id "stream-program")
+    | some x, some p, none =>
+      -- `panic` / `hang`: the model never panics on a program
+      (match Codec.Stream.trace x p with
+       | some m => reply id false (showHex m) [("C17", .viol "decoder-stream-differs"), ("C04", .viol "panic-or-hang")] ("sdec/" ++ r)
+       | none => bad id "stream-program")
+    | _, _, _ => bad id "stream-fields"
+  | "enc" :: escS :: pre :: ind :: wires :: "=>" :: obs =>
+    match hexField pre, hexField ind, (splitComma wires).mapM (fun w => (hexField w).bind Codec.Enc.decodeWire) with
+    | some pr, some ind', some vals =>
+      let enc : Codec.Stream.Enc := { escapeHTML := escS = "1", indentPrefix := pr, indentValue := ind' }
+      let model : String := match Codec.Stream.encodeAll enc vals with
+        | none => "panic"
+        | some (out, fl) => "ok:" ++ showHex out ++ " " ++ (if fl.isEmpty then "-" else String.fromUTF8! (ByteArray.mk fl.toArray))
+      let got := " ".intercalate obs
+      let corr := model = got
+      reply id corr (model.replace " " "_")
+        [("C17", if corr then .ok else .viol "encoder-stream-differs"),
+         ("C04", if (got = "panic" && !corr) || got = "hang" then .viol "panic-or-hang" else .ok)]
+        ("senc/" ++ escS ++ (if pr.isEmpty then "-" else "p") ++ (if ind'.isEmpty then "-" else "i") ++ "/" ++ toString vals.length)
+    | _, _, _ => bad id "stream-enc-fields"
+  | _ => bad id "stream-arity"
 
 /-! ### STD: harness-side differential against the standard library (C17, not a theorem) -/
 
@@ -874,8 +925,10 @@ def handle1 (line : String) : String :=
   | "VALID" :: id :: args => handleValid id args
   | "ENTRY" :: id :: args => handleEntry id args
   | "SCAN" :: args => handleScan args
+  | "CODEC" :: id :: "typed" :: args => Codec.Typed.handleTyped id args
   | "CODEC" :: id :: args => handleCodec id args
   | "STD" :: id :: args => handleStd id args
+  | "STREAM" :: id :: args => handleStream id args
   | "CLI" :: id :: args => handleCli id args
   | "LAPPLY" :: id :: args => handleLApply id args
   | "LEQUAL" :: id :: args => handleLEqual id args
